@@ -365,6 +365,9 @@ def run(prog: Program, col: Collector, tier: str, refs: Optional[Refs] = None, c
     col.rule("R05.13", "a rebuilt node is substituted only at the names that are fresh in the node itself, not in what it evaluated to", floor=1)
     _c04._fresh_of_original_node(prog, col, refs, cat)
 
+    col.rule("R05.14", "whether an input of the term is substituted is decided on the keys of the substitution, never on a collection that holds names of the values", floor=4)
+    _c04._substituted_decided_on_keys(prog, col, refs, cat)
+
     # ---------------------------------------------------------------- R05.2
     col.rule("R05.2", "every constructed term is mangled: all bound names, fresh names, rebuilt through reflect", floor=6)
     _mangle(prog, col, refs)
